@@ -11,7 +11,7 @@ META = {
                    "batchable and never for generators (else an error); with keep_dim the reduced dimension re-inserted is the caller's dimension, not "
                    "the internal batch dimension; a batch that selects a single node is passed through un-reduced; batched mean/std divide by the size "
                    "of the reduced dimension and the un-batched path does not batch; broadcast iterates the operand aligned to the broadcast result. "
-                   "Not decided: numerical equality with NumPy.",
+                   "Later rules: raw buffers of two node arrays are paired only after alignment, no mutable default argument is mutated (directly or through a helper), every node gets a payload of its own. Not decided: numerical equality with NumPy.",
     "assumptions": ["xarray / numpy are opaque; the batching loop is explored for one level"],
 }
 
